@@ -316,6 +316,26 @@ func c07Case(r *vhlib.Run, m *vhlib.Model, st xfStream, ops []xrOp, bucket strin
 	args := append([]string{vhlib.Hex(st.Sink)}, xrOpsStrings(ops)...)
 	mobs := r.CaseLive(m, "xr", args, obs+"|")
 	_ = mobs
+	if bucket == "random" {
+		// the ReadSeeker specification itself (Refine.v sp_run), run on the plaintext
+		ph := vhlib.Hex(st.Plain)
+		if ph == "" {
+			ph = "-"
+		}
+		r.CaseLive(m, "xspec", append([]string{ph}, xrOpsStrings(ops)...), obs+"|")
+	}
+}
+
+// c07Honest: the hypothesis of the refinement theorem (Props/C07.v
+// xr_refines_readseeker_decidable), evaluated by the extracted model on a stream
+// the real Writer produced: sorted table, every chunk decodes to its slice.
+func c07Honest(r *vhlib.Run, m *vhlib.Model, st xfStream) {
+	ph := vhlib.Hex(st.Plain)
+	if ph == "" {
+		ph = "-"
+	}
+	r.Eval("honest:"+st.Name, true, st.Sink)
+	r.CaseLive(m, "xhonest", []string{vhlib.Hex(st.Sink), ph}, "honest")
 }
 
 func runC07(r *vhlib.Run) {
@@ -334,6 +354,19 @@ func runC07(r *vhlib.Run) {
 	depth := 3
 	if !r.Quick() {
 		depth = 4
+	}
+	for _, st := range streams {
+		c07Honest(r, m, st)
+	}
+	nh := 40
+	if !r.Quick() {
+		nh = 600
+	}
+	for i := 0; i < nh; i++ {
+		sink, plain, ok := makeXFStream(randXWConfig(rng), randXWOps(rng, 1+rng.Intn(25), 60))
+		if ok {
+			c07Honest(r, m, xfStream{Sink: sink, Plain: plain, Name: "random-writer-history"})
+		}
 	}
 	for si, st := range streams {
 		alpha := xrAlphabet(st)
